@@ -4,6 +4,7 @@
 #include <semaphore.h>
 #include <sys/wait.h>
 #include <sys/prctl.h>
+#include <poll.h>
 #include <algorithm>
 #include "exec.hpp"
 
@@ -141,8 +142,11 @@ void Exec::probe(const char *where) {
             if ((k == M_SRC_TYPE_PS || k == M_SRC_TYPE_END) && got >= w - slack && got <= w) continue;
             // a one-shot live source whose kernel object became ready may already have been retired when its event was read
             long lslack = 0; for (auto &kv : i.live_srcs) if ((kv.first.first == k || k == M_SRC_TYPE_END) && kv.second.oneshot && (kv.second.fired || kv.first.first == M_SRC_TYPE_THRESH)) lslack++;
+            // likewise a one-shot timer whose event is held back (low priority / batching) is gone from the registry once its expiry was read
+            if (k == M_SRC_TYPE_TMR || k == M_SRC_TYPE_END) for (auto &kv : i.tmrs) if (i.tmr_maybe_retired(kv.second)) lslack++;
+            if (k == M_SRC_TYPE_TMR && got >= w - lslack && got <= w) continue;
             if (k >= M_SRC_TYPE_SGN && got >= w - lslack - (k == M_SRC_TYPE_END ? slack : 0) && got <= w) continue;
-            if (got != w) { fail("C09.5", "after " + std::string(where) + ": m_mod_src_len(" + iname(&i) + ", kind " + std::to_string(k) + ") = " + std::to_string(got) + ", the module has " + std::to_string(w) + " such sources registered"); return; }
+            if (got != w) { fail(last_eagain_step == step ? "C18.2" : "C09.5", std::string(last_eagain_step == step ? "a call refused with EAGAIN had an effect: " : "") + "after " + std::string(where) + ": m_mod_src_len(" + iname(&i) + ", kind " + std::to_string(k) + ") = " + std::to_string(got) + ", the module has " + std::to_string(w) + " such sources registered"); return; }
         }
     }
 }
@@ -152,7 +156,7 @@ void Exec::probe(const char *where) {
 void Exec::tb_after_call(Inst *S, const Op &op, int r, double t0) {
     double t1 = now();
     if (r == -EAGAIN) {
-        cls.insert("tb-refused"); S->tb_refused++;
+        cls.insert("tb-refused"); S->tb_refused++; last_eagain_step = step;
         // recovery: a module that stayed RUNNING in a looping context and whose refill timer had time to fire and be dispatched must be able to act again
         double period = 1.0 / (double)S->tb_rate;
         if (S->state == M_MOD_RUNNING && ctx.looping && S->tb_dispatches_since_call >= 1 && (t0 - S->tb_last_call_at) >= 3 * period + 0.05 && S->tb_running_since <= S->tb_last_call_at)
@@ -251,6 +255,7 @@ void Exec::do_op3(const Op &op, bool top, Inst *S, Inst *T, bool deny) {
         m_src_tmr_t its = {CLOCK_MONOTONIC, (uint64_t)tmr_period_ms[idx] * 1000000ULL};
         bool legal = mod_ok(this, S);
         bool present = S->tmrs.count(idx);
+        if (present && S->tmr_maybe_retired(S->tmrs[idx])) { counters_skipped++; cls.insert("oneshot-timer-maybe-retired:op-skipped"); break; } // whether the key is still present is not decidable from outside
         if (op.code == prog::O_TMR_REG) {
             int lf = 0; int pr = PRIO_NORM;
             switch (op.b & 3) { case 1: lf |= M_SRC_PRIO_LOW; pr = PRIO_LOW; break; case 3: lf |= M_SRC_PRIO_HIGH; pr = PRIO_HIGH; break; default: break; }
@@ -274,7 +279,7 @@ void Exec::do_op3(const Op &op, bool top, Inst *S, Inst *T, bool deny) {
         observe_pre();
         if (!S || !handle(S)) break;
         if (skip_if_deny()) break;
-        if (P.profile != "registry") { live_src_op(op, S); break; }
+        if (P.profile != "registry") { live_src_op(op, S, top); break; }
         if (S->state != M_MOD_IDLE) { counters_skipped++; break; }
         int kind = (int)op.a; long ki = op.b;
         if (kind < M_SRC_TYPE_FD || kind > M_SRC_TYPE_THRESH) break;
@@ -436,7 +441,7 @@ void Exec::release_all_tasks() {
     for (int k = 0; k < 3; k++) { if (task_used[k]) { sem_post(&task_latch[k]); for (auto &i : insts) { auto it = i.live_srcs.find({M_SRC_TYPE_TASK, (long)k}); if (it != i.live_srcs.end()) it->second.fired = true; } } }
 }
 
-void Exec::live_src_op(const Op &op, Inst *S) {
+void Exec::live_src_op(const Op &op, Inst *S, bool top) {
     int kind = (int)op.a; long ki = ((op.b % 3) + 3) % 3;
     if (kind < M_SRC_TYPE_SGN || kind > M_SRC_TYPE_THRESH) return;
     if (!mod_ok(this, S) || S->tb_on) { counters_skipped++; return; }
@@ -445,7 +450,16 @@ void Exec::live_src_op(const Op &op, Inst *S) {
     bool present = S->live_srcs.count(key);
     // a signal number / pid / task id is watched by at most one module at a time (one kernel object delivers once)
     if (reg && !present && live_key_elsewhere(S, kind, ki)) { counters_skipped++; return; }
-    if (kind == M_SRC_TYPE_TASK && reg && (present || task_used[ki])) { counters_skipped++; return; } // each latched task runs once per case
+    if (kind == M_SRC_TYPE_TASK && reg && (present || task_used[ki])) { counters_skipped++; return; } // each task runs once per case
+    // known finding KF-C04-1: a task still in flight when its module leaves RUNNING (or the loop stops) writes into the freed source.
+    // Excluded by construction: a task is only registered at top level on a RUNNING module of a looping context and the harness
+    // then dispatches until the library has consumed its completion, before anything else can happen (strict mode lifts this).
+    const bool sync_task = kind == M_SRC_TYPE_TASK && reg && !P.strict;
+    std::set<int> fds_before_task; if (sync_task) fds_before_task = open_fds();
+    if (sync_task && !(top && cbstack.empty() && ctx.looping && !ctx.quit && !in_loop && S->state == M_MOD_RUNNING && ctx.running > 0)) { counters_skipped++; cls.insert("excluded_by_known_finding:KF-C04-1"); return; }
+    // a one-shot source whose kernel object is (or may be) ready may already have been retired by the library when its event was read,
+    // although the event has not reached the handler yet: whether the key is still "present" is then not decidable from outside
+    if (present) { const LiveSrc &cur_ls = S->live_srcs[key]; if (cur_ls.oneshot && (cur_ls.fired || kind == M_SRC_TYPE_THRESH)) { counters_skipped++; cls.insert("live-oneshot-maybe-retired:op-skipped"); return; } }
     long token = 0x5000 + ki; if (kind != M_SRC_TYPE_TASK) token = 0x6000 + next_token++;
     int lf = 0; bool oneshot = kind == M_SRC_TYPE_TASK || kind == M_SRC_TYPE_THRESH;
     if (kind == M_SRC_TYPE_PID) oneshot = oneshot || true; // a process exits once; keep the model simple: registered one-shot
@@ -470,8 +484,19 @@ void Exec::live_src_op(const Op &op, Inst *S) {
         else if (r != 0) fail("C09.1", what + " returned " + std::to_string(r));
         else {
             LiveSrc ls; ls.kind = kind; ls.key = ki; ls.token = token; ls.oneshot = oneshot; ls.prio = PRIO_NORM;
+            if (kind == M_SRC_TYPE_PID && kid_dead[ki]) ls.fired = true; // the process is already gone: the source is ready as soon as it is polled
             S->live_srcs[key] = ls; nt["C20"] = true;
             if (kind == M_SRC_TYPE_TASK) { task_used[ki] = true; if (S->state == M_MOD_RUNNING) task_started[ki] = true; }
+            if (sync_task) {
+                // wait (without running the loop) until the task thread has written its completion: that write is its last access to the source
+                sem_post(&task_latch[ki]); S->live_srcs[key].fired = true;
+                int efd = -1;
+                for (int fd : open_fds()) if (!fds_before_task.count(fd)) { char path[64], target[128]; snprintf(path, sizeof path, "/proc/self/fd/%d", fd); ssize_t n = readlink(path, target, sizeof target - 1); if (n > 0) { target[n] = 0; if (strstr(target, "eventfd")) efd = fd; } }
+                bool done = false;
+                if (efd >= 0) { struct pollfd pfd = {efd, POLLIN, 0}; done = poll(&pfd, 1, 5000) == 1; }
+                if (!done) { v.inconclusive = true; cls.insert("task-completion-not-observed"); }
+                cls.insert("task-run-to-completion");
+            }
         }
     } else {
         if (present) { if (r != 0) fail("C09.2", what + " which is registered returned " + std::to_string(r)); else { S->retired_tokens.insert(S->live_srcs[key].token); S->live_srcs.erase(key); nt["C09"] = true; } }
@@ -488,7 +513,7 @@ void Exec::live_fire(const Op &op) {
     case M_SRC_TYPE_PID: if (kids[ki] <= 0 || kid_dead[ki]) return; kill(kids[ki], SIGKILL); kid_dead[ki] = true; { struct timespec ts = {0, 2000000}; nanosleep(&ts, nullptr); } break;
     default: return;
     }
-    if (owner && owner->state == M_MOD_RUNNING && ctx.looping) { owner->live_srcs[{kind, ki}].fired = true; cls.insert("live-source-fired"); }
+    if (owner && ((owner->state == M_MOD_RUNNING && ctx.looping) || kind == M_SRC_TYPE_PID)) { owner->live_srcs[{kind, ki}].fired = true; cls.insert("live-source-fired"); } // a process stays dead: its source is ready whenever it gets polled
 }
 
 void Exec::close_harness_fds() {
